@@ -137,11 +137,14 @@ class BaseFileWriterSession(BaseWriterSession):
 
         try:
             last_modified = email.utils.parsedate(last_modified)
-        except ValueError:
+
+            if not last_modified:
+                raise ValueError('Unrecognized date format.')
+
+            last_modified = time.mktime(last_modified)
+        except (ValueError, OverflowError):
             _logger.exception('Failed to parse date.')
             return
-
-        last_modified = time.mktime(last_modified)
 
         os.utime(filename, (time.time(), last_modified))
 
